@@ -312,6 +312,54 @@ def run(ctx, proof):
         ctx.sample({"n": n, "shape": c["shape"], "param": c["param"], "class": c["kind"],
                     "lower": [float(x) for x in c["l"]][:16], "upper": [float(x) for x in c["u"]][:16],
                     "exploitability": ex[1], "l1": l1, "l2": l2, "linf": linf}, limit=5)
+    # the same OBJECT evaluated again after its bounds were rewritten under an unchanged set of known values (what
+    # compute_bounds() does after a reveal, or the bulk bound setters): the reported number must follow the current bounds
+    from incomplete_cooperative.coalitions import Coalition
+    from incomplete_cooperative.exploitability import compute_exploitability
+    redo = [c for c in cases if c["hyp"] and c["shape"] != "grand-unknown" and c["n"] <= 6]
+    rng.shuffle(redo)
+    for c in redo[: (40 if ctx.quick else 400)]:
+        n = c["n"]
+        g = impl_game(c)
+        try:
+            first = float(compute_exploitability(g))
+            known = set(c["known"])
+            l2, u2 = list(c["l"]), list(c["u"])
+            mode = rng.choice(["rewrite", "degenerate", "shrink"])
+            for s_ in range(1, 2 ** n):
+                if s_ in known:
+                    continue
+                if mode == "rewrite":
+                    a, b = sorted([val(rng, "int"), val(rng, "int")])
+                    l2[s_], u2[s_] = a, b
+                elif mode == "degenerate":
+                    u2[s_] = l2[s_]
+                else:
+                    if rng.random() < 0.5:
+                        u2[s_] = l2[s_]
+            if rng.random() < 0.5:
+                g.set_lower_bounds(np.array([float(x) for x in l2]))
+                g.set_upper_bounds(np.array([float(x) for x in u2]))
+            else:
+                for s_ in range(2 ** n):
+                    if s_ not in known:
+                        g.set_lower_bound(float(l2[s_]), Coalition(s_))
+                        g.set_upper_bound(float(u2[s_]), Coalition(s_))
+            second = float(compute_exploitability(g))
+        except Exception as e:
+            ctx.violation(f"implementation raised {type(e).__name__} on a re-evaluated object: {e}", {"case": case_json(c)})
+            continue
+        ctx.evaluations += 1
+        ctx.count("re_evaluated_object", mode)
+        c2 = dict(c, l=l2, u=u2)
+        rhs = weighted_gap(n, l2, u2)
+        if not close(second, float(rhs), 1e-9, max(scale_of(c), scale_of(c2))):
+            ctx.violation(f"second evaluation of one game object after its bounds changed ({mode}) reports {second!r}, but "
+                          f"sum (u-l)/C(n,|S|) of the current bounds is {float(rhs)!r} (first evaluation gave {first!r})",
+                          {"case_before": case_json(c), "lower_after": [str(x) for x in l2], "upper_after": [str(x) for x in u2],
+                           "mode": mode, "first": first, "second": second, "expected_second": str(rhs)})
+            break
+
     # in-Coq shard: the same cases evaluated by vm_compute on the Gallina model; must equal the extracted model's output
     shard = [(c, out) for c, out in zip(cases, outs) if c["n"] <= 5 and c["shape"] != "grand-unknown"]
     rng.shuffle(shard)
